@@ -8,6 +8,7 @@
 package main
 
 import (
+	"context"
 	"encoding/json"
 	"flag"
 	"fmt"
@@ -58,6 +59,13 @@ func init() {
 	regE("C15", "views do not leak", 1500)
 	regE("C16", "published pots partition the chips", 4000)
 	registerOther()
+}
+
+func replayDir() string {
+	if d := os.Getenv("VERIF_DIR_REPLAYS"); d != "" {
+		return d
+	}
+	return filepath.Join(verifDir(), "replays")
 }
 
 func verifDir() string {
@@ -148,7 +156,13 @@ func runSharded(p string, tier string, seed uint64, runs int64, budget float64, 
 	for k := 0; k < procs; k++ {
 		k := k
 		go func() {
-			cmd := exec.Command(exe, "shard", "-p", p, "-tier", tier, "-seed", fmt.Sprint(seed), "-runs", fmt.Sprint(runs),
+			limit := 15 * time.Minute
+			if budget > 0 {
+				limit = time.Duration(budget*float64(time.Second)) + 10*time.Minute
+			}
+			ctx, cancel := context.WithTimeout(context.Background(), limit)
+			defer cancel()
+			cmd := exec.CommandContext(ctx, exe, "shard", "-p", p, "-tier", tier, "-seed", fmt.Sprint(seed), "-runs", fmt.Sprint(runs),
 				"-budget", fmt.Sprint(budget), "-first", fmt.Sprint(k), "-stride", fmt.Sprint(procs), "-workers", "1")
 			cmd.Env = append(os.Environ(), "GOMAXPROCS=2")
 			cmd.Stderr = os.Stderr
@@ -285,7 +299,7 @@ func cmdCheck(args []string) int {
 		}
 		if got == nil {
 			fmt.Fprintf(os.Stderr, "HARNESS-FAULT: violation %q of run %d does not reproduce in the replay executor\n", v.Sig, v.FirstRun)
-			dump := filepath.Join(verifDir(), "replays", fmt.Sprintf("%s-%d-unreproduced.json", *p, v.Case.SubSeed))
+			dump := filepath.Join(replayDir(), fmt.Sprintf("%s-%d-unreproduced.json", *p, v.Case.SubSeed))
 			writeCase(dump, v.Case)
 			return 2
 		}
@@ -293,7 +307,7 @@ func cmdCheck(args []string) int {
 		min.Seed = seed
 		min.Expect = &sim.Expect{Property: got.Property, Signature: got.Sig, Detail: got.Detail, Step: got.Step}
 		min.Note = fmt.Sprintf("minimised from %d to %d steps in %d replays; original sub-seed %d (run %d of VERIF_SEED=%d)", len(v.Case.Steps), len(min.Steps), tries, v.Case.SubSeed, v.FirstRun, seed)
-		replayPath = filepath.Join(verifDir(), "replays", fmt.Sprintf("%s-%d.json", *p, v.Case.SubSeed))
+		replayPath = filepath.Join(replayDir(), fmt.Sprintf("%s-%d.json", *p, v.Case.SubSeed))
 		if err := writeCase(replayPath, min); err != nil {
 			fmt.Fprintln(os.Stderr, "HARNESS-FAULT:", err)
 			return 2
